@@ -604,8 +604,12 @@ def explore_cleanup_exclusion(ctx):
             for excl in (True, False):
                 queue = FairMultiFIFOQueue()
                 seen = []
+                sizes_seen = []
+                ydone = []
 
                 def probe():
+                    # X is still running (this is its clean-up): it must still be counted
+                    sizes_seen.append((queue.qsize, queue.inprogress_size, queue.fifo_size("n:node"), 0 if ydone else 1))
                     it = queue.get(timeout=0.001)
                     seen.append(None if it is None else str(it[0]))
                     if it is not None:
@@ -624,7 +628,7 @@ def explore_cleanup_exclusion(ctx):
                         raise pw.OperationalError("injected by the harness")
 
                 Task(xbody if gen else xplain, queue, "n:node", exclusive=excl, name="X")
-                Task(lambda task: None, queue, "n:node", name="Y")
+                Task(lambda task, _y=ydone: _y.append(1), queue, "n:node", name="Y")
                 pool.global_abort.clear()
                 for _ in range(4):
                     if queue.qsize == 0:
@@ -659,6 +663,11 @@ def explore_cleanup_exclusion(ctx):
                 elif not excl and seen[0] is None and not gen:
                     # (an ordinary task does not hold the FIFO: the next item may start beside it)
                     pass
+                if sizes_seen:
+                    qs, ips, fs, yleft = sizes_seen[0]
+                    if (qs, ips, fs) != (yleft, 1, 1 + yleft):
+                        ctx.fail("C11:sizes-during-cleanup", f"task X (generator={gen}, database error={fault}, exclusive={excl}) is still running its clean-up and {yleft} other item(s) are queued, "
+                                 f"but the queue reports queued={qs}, in progress={ips}, fifo_size={fs} (a node with fifo_size 0 is reported idle)", {**rp, "sizes_during_cleanup": sizes_seen[0]})
 
 
 def explore_cleanup_once(ctx):
